@@ -5,7 +5,7 @@
 //! case line (all integers):
 //!   sub <nslots> { <bits> <init> <session> <pos0> <n> <off> <vis> <claim> <nframes> { <typ> <flags> <flen> <k> <dtid> }* }*
 //!       <ninit> { <slot> }* <ibl> <nops> { <opcode> <args..> }*
-//!   ibl: initial buffer length handed to FragmentAssembler::new (0 = None, the default)
+//!   ibl: initial buffer length handed to FragmentAssembler::new (0 = None, the default; negative = Some(0))
 //!   opcodes: 1 poll limit                       Subscription::poll(FragmentAssembler handler)
 //!            2 cpoll limit salt ntab tab*       Subscription::controlled_poll; the answer to the fragment whose frame starts
 //!                                               at term offset o is tab[(o / 32 + salt) mod ntab] (1 Abort 2 Break 3 Commit 4 Continue)
@@ -105,7 +105,7 @@ fn case_sub(a: &[i64]) -> String {
         let hash = catch(|| payload_hash(b, o, l)).unwrap_or(-1);
         delivered.borrow_mut().push(format!("({}, {}, {})", sess, l, hash));
     };
-    let mut assembler = FragmentAssembler::new(&mut delegate, if ibl == 0 { None } else { Some(ibl as isize) });
+    let mut assembler = FragmentAssembler::new(&mut delegate, if ibl == 0 { None } else if ibl < 0 { Some(0) } else { Some(ibl as isize) });
     let mut inner = assembler.handler();
     let mut tap = |b: &AtomicBuffer, o: Index, l: Index, h: &Header| {
         raw.borrow_mut().push(raw_obs(b, o, l, h));
